@@ -113,6 +113,33 @@ def gen(seed, family=None, knobs=None):
             n.link("fw1", port, sw, 8, bw())
             subnets.append((f"192.168.{octet}", f"192.168.{octet}.1", sw))
             n._swport[sw] = 0
+    elif family == "wlan":
+        # two LANs joined over the air by a pair of wireless routers (wireless access point = port 1, wired router interface = port 2)
+        rnd_wl = random.Random(f"{seed}-wlan-family")
+        freq = rnd_wl.choice(["WIFI_2_4", "WIFI_5"])
+        acl = {rnd_wl.choice([1, 3]): {"action": "PERMIT"}}
+        if rnd_wl.random() < 0.4:
+            acl[0] = {"action": "DENY", "protocol": "TCP", "dst_port": "FTP"}
+        subnets = []
+        for i in (1, 2):
+            wr, sw, other = f"wr{i}", f"sw{i}", 3 - i
+            node = {"type": "wireless-router", "hostname": wr, **dur(),
+                    "router_interface": {"ip_address": f"192.168.{i}.1", "subnet_mask": "255.255.255.0"},
+                    "wireless_access_point": {"ip_address": f"192.168.9.{i}", "subnet_mask": "255.255.255.0", "frequency": freq},
+                    "acl": copy.deepcopy(acl)}
+            if i == 1 or rnd_wl.random() < 0.6:
+                node["routes"] = [{"address": f"192.168.{other}.0", "subnet_mask": "255.255.255.0", "next_hop_ip_address": f"192.168.9.{other}", "metric": 0}]
+            else:
+                node["default_route"] = {"next_hop_ip_address": f"192.168.9.{other}"}
+            n.nodes.append(node)
+            routers.append(wr)
+            n.switch(sw, 8, **dur())
+            switches.append(sw)
+            n.link(wr, 2, sw, 8, bw())
+            n._swport[sw] = 0
+            subnets.append((f"192.168.{i}", f"192.168.{i}.1", sw))
+        if rnd_wl.random() < 0.5:
+            n.extra["airspace"] = {"frequency_max_capacity_mbps": {freq: rnd_wl.choice([0.05, 1.0, 50.0])}}
     else:
         raise ValueError(family)
 
